@@ -55,4 +55,20 @@ CONFIG = {
         "assumptions": ["origin names shorter than 65279 bytes"],
         "contradicts": "PatVerif.Props.C20",
     },
+    "C09": {
+        "rule": "Histories of VerifyRequest / FinalizeIndex calls on a fresh real attester with real P-384 keys: alphabet of 11 calls "
+                "(verify for 2 clients; finalize over 2 clients × 2 index keys × 2 anonymous origin IDs; one finalize with a corrupt key), "
+                "all histories up to length 3 (quick) / 4 (thorough); plus random histories of length 6..44 over 4 clients × 4 index keys × 4 "
+                "anonymous IDs. Outcomes and the full per-client maps (via the VerifSnapshot hook) are compared after every history; "
+                "index strings are mapped to ordinals through a reference computation outside the attester.",
+        "level_text": "The attester's bookkeeping is a state machine; its refinement to a four-line specification (accept iff the client is "
+                      "known and the index is unbound or bound to the same ID) and the characterisation of every call's outcome by the history "
+                      "before it are Lean theorems by induction over arbitrary call sequences; the four clauses of C09 are corollaries. "
+                      "The model is tied to attester.go by executing both on the same histories, comparing outcomes and full map snapshots.",
+        "level_note": "Trusted: Lean kernel, standard axioms, harness. Client/index/anonymous IDs are abstracted to opaque names; the hex-string keys "
+                      "of the Go maps are mapped to ordinals by the harness (injective on the generated worlds).",
+        "trusted_base": COMMON_TB,
+        "assumptions": ["hex encoding of keys is injective (Go maps keyed by hex strings behave as maps keyed by the byte strings)"],
+        "contradicts": "PatVerif.Props.C09 (refines, outcome_spec, functional, repeat_accepted, unbound_accepted, unknown_refused, reject_preserves)",
+    },
 }
